@@ -183,7 +183,68 @@ def r_zst_ptr(F, V):
     else:
         R.violation(key, b, "for zero-sized element types Bucket::as_ptr does not return the aligned dangling pointer built from align_of::<T>() (it uses the index-encoding `ptr`): references to over-aligned zero-sized elements are misaligned", line=line_of(b, bb=zb))
         R.inst(key, "ZST arm hands out the encoding pointer", "violation", True, where(b, bb=zb))
+    # the index <-> pointer conversions have two arms (zero-sized: index encoding; sized: address arithmetic): both arms
+    # must be functions of the same index/offset argument and of the bucket itself - an arm that ignores the index maps
+    # every bucket to one index (for zero-sized elements erase/retain then act on the wrong slot)
+    for fn in ("raw::Bucket::next_n", "raw::Bucket::from_base_index", "raw::Bucket::to_base_index"):
+        fb = F.bodies.get(fn)
+        if fb is None:
+            R.undec("%s not found" % fn)
+            continue
+        req = set(l for l in range(1, fb.arg_count + 1) if fb.locals[l]["ty"]["s"] == "usize" or fb.locals[l].get("name") == "self")
+        key2 = fn + "|arms-agree"
+        phis = [l for l in range(len(fb.locals)) if len(fb.whole_defs(l)) > 1 and fb.locals[l]["ty"]["s"] not in ("bool", "()")]
+        problems = []
+        for l in phis:
+            per = []
+            for d in fb.whole_defs(l):
+                ops = d[3]["args"] if d[0] == "call" else rv_operands(d[3]["rv"])
+                deps = set()
+                for o in ops:
+                    deps |= _dep_args(fb, o)
+                per.append((d, deps & req))
+            union = set()
+            for _, dp in per:
+                union |= dp
+            for d, dp in per:
+                miss = union - dp
+                if miss:
+                    problems.append((d, sorted(fb.locals[m].get("name") or "_%d" % m for m in miss)))
+        if not phis:
+            R.undec("%s: no two-armed result found (zero-sized / sized arms)" % fn)
+        elif problems:
+            d, names = problems[0]
+            R.violation(key2, fb, "one arm of %s computes its result without using `%s`, which the other arm uses: for that element kind every bucket maps to the same index/pointer "
+                        "(for zero-sized elements the iterator then reports every element at index 0 and erase/retain/extract_if unregister the wrong slot)" % (fn.split("::")[-1], "`, `".join(names)), line=line_of(fb, bb=d[1]))
+            R.inst(key2, "arm ignores %s" % names, "violation", True, where(fb, bb=d[1]))
+        else:
+            R.inst(key2, "both arms are functions of %s" % sorted(fb.locals[m].get("name") or "_%d" % m for m in req), "ok", True, where(fb))
     return R
+
+
+def _dep_args(body, operand, _seen=None):
+    """argument locals an operand's value depends on (full backward slice through temporaries and call arguments)."""
+    _seen = _seen if _seen is not None else set()
+    out = set()
+    if operand["k"] not in ("copy", "move"):
+        return out
+    l = operand["p"]["l"]
+    for e in operand["p"].get("proj", []):
+        if e["k"] == "index":
+            out |= _dep_args(body, {"k": "copy", "p": {"l": e["local"]}}, _seen)
+    if l in _seen:
+        return out
+    _seen.add(l)
+    if body.is_arg(l):
+        out.add(l)
+        return out
+    for d in body.defs.get(l, ()):
+        ops = d[3]["args"] if d[0] == "call" else (rv_operands(d[3]["rv"]) if d[3]["k"] == "assign" else [])
+        if d[0] != "call" and d[3]["k"] == "assign" and d[3]["rv"]["k"] in ("ref", "rawptr", "discriminant", "len") and "p" in d[3]["rv"]:
+            ops = list(ops) + [{"k": "copy", "p": d[3]["rv"]["p"]}]
+        for o in ops:
+            out |= _dep_args(body, o, _seen)
+    return out
 
 
 # --------------------------------------------------------------------- R-GROUP-DEFS
@@ -250,6 +311,9 @@ def r_clone_guard_range(F, V):
         problems.append("the guard drops the exclusive range 0..*index but the index stored after cloning slot i is not i + 1: the clone just written is never dropped if a later Clone panics (leak)")
     if inclusive and plus1:
         problems.append("the guard drops an inclusive range but the stored index is i + 1: an uninitialised slot would be dropped")
+    if inclusive and not plus1:
+        problems.append("the guard drops the inclusive range 0..=*index from an initial index of 0: before the first clone has been written (a panic in the very first Clone::clone) "
+                        "it already covers slot 0, which holds no clone - in clone_from that is the target's old, already dropped element (double drop)")
     if not after_write:
         problems.append("the guard index is advanced before the slot is written: a panic in Clone would drop an uninitialised slot")
     if problems:
@@ -384,6 +448,38 @@ def r_par_consume(F, V):
             R.inst(key, "element taken but not consumed on some path", "violation", True, where(b))
         else:
             R.inst(key, "every element taken from self.iter is read before return / next iteration", "ok", True, where(b))
+    if b is not None:
+        # the producer may be forgotten (its Drop - which drops the elements still in its range - skipped) only
+        # once its cursor is exhausted: with the `None` edges of the loop's next() removed, no forget is reachable
+        key = p + "|forget-only-when-exhausted"
+        forgets = [i for i, t in b.calls() if (callee_path(t) or "") == "core::mem::forget"
+                   and t["args"] and t["args"][0]["k"] in ("copy", "move") and "ParDrainProducer" in b.local_ty(t["args"][0]["p"]["l"])["s"]]
+        cut = set()
+        for j in b.normal:
+            if _is_exhaustion_branch(b, j):
+                for v, bb in b.term(j)["targets"]:
+                    if v == 0:
+                        cut.add((j, bb))
+        seen, work = {0}, [0]
+        while work:
+            x = work.pop()
+            for y in b.nsucc[x]:
+                if (x, y) in cut or y in seen:
+                    continue
+                seen.add(y)
+                work.append(y)
+        if not forgets:
+            R.inst(key, "fold_with never forgets the producer (its Drop always runs)", "ok", False, where(b))
+        elif not cut:
+            R.undec("fold_with: forget(self) present but no exhaustion branch of the cursor found")
+        else:
+            badf = [i for i in forgets if i in seen]
+            if badf:
+                R.violation(key, b, "mem::forget(self) can be reached without the producer's cursor being exhausted (e.g. by leaving the loop when the consumer is full): "
+                            "the elements still in this producer's range are neither delivered nor dropped, and the table is then reset (leak)", line=line_of(b, bb=badf[0]))
+                R.inst(key, "forget reachable without exhaustion", "violation", True, where(b, bb=badf[0]))
+            else:
+                R.inst(key, "forget(self) is reachable only through the None edge of self.iter.next()", "ok", True, where(b, bb=forgets[0]))
     c = F.bodies.get("external_trait_impls::rayon::helpers::collect")
     if c is None:
         R.undec("rayon helpers::collect not found")
